@@ -263,7 +263,7 @@ def plan(pid, tier):
                 (profs[0], 2, 120, 40), (profs[0], 3, 80, 50), (profs[1], 4, 60, 50), (profs[1], 2, 100, 40),
                 (profs[0], 3, 60, 70), (profs[1], 2, 50, 90)]
     out = []
-    for rep in range(8):
+    for rep in range(16):
         for spe in (2, 3, 4):
             out.append((profs[0], spe, 200, 50))
             out.append((profs[1], spe, 150, 60))
